@@ -153,6 +153,7 @@ def compare_sets(ctx, sets, thorough, c, tot):
                 c["items_not_in_cpp_registry"] = c.get("items_not_in_cpp_registry", 0) + 1
                 continue
             tot["compared"] += 1
+            a, _, reu = a.partition(" U:")
             main, _, thr = a.partition(" T:")
             sig = {"oracle": "cpp", "item": item, "schema": name}
             files_r = {"input.txt": l, "cpp_answer.txt": a}
@@ -172,6 +173,12 @@ def compare_sets(ctx, sets, thorough, c, tot):
                     continue
                 tot["agree_reject"] += 1
                 ctx.distinct("%s/%s/reject" % (name, item))
+            # an object that has read earlier inputs of the item answers like a fresh one
+            if reu:
+                if reu.startswith("OK") != main.startswith("OK ") or (reu.startswith("OK") and reu[3:] != main[3:]):
+                    ctx.violation(dict(sig, **{"class": "cpp-reused-object-differs"}), "a C++ object of %s that has already read earlier inputs answers %s, a fresh one %s; input %s" % (item, reu[:100], main[:100], hx[:300]), files_r)
+                else:
+                    tot["reused_object_agrees"] = tot.get("reused_object_agrees", 0) + 1
             # both C++ stream APIs agree with each other
             t_ok = thr.startswith("OK")
             if t_ok != main.startswith("OK ") or (t_ok and thr[3:] != main[3:]):
@@ -191,7 +198,7 @@ def finish_report(ctx, c, tot, compiled):
                        "and C++ from the current tlgen --language=cpp compiled with g++ -fsanitize=address,undefined -fno-sanitize-recover=all "
                        "(minus nonnull-attribute, pointer-overflow) and a driver over tlgen::meta. Cases: TL1 boxed and bare bytes of FillRandom / hostile read-back values and bounded "
                        "mutants; byte strings that Go refuses through its length-sanity heuristic are not given to the C++ code (it has no such check and would only allocate). Go accepts => C++ answers OK with the bytes Go rewrites; Go rejects => C++ "
-                       "rejects; the throwing stream API answers like the bool one; any sanitizer report or death of the driver is a violation attributed to the input "
+                       "rejects; the throwing stream API answers like the bool one; an object reused across the inputs of an item answers like a fresh one; any sanitizer report or death of the driver is a violation attributed to the input "
                        "announced before it. Schemas the C++ back end cannot build are advisory notes.")
     ctx.require("schemas compiled in C++", compiled, 1)
     ctx.require("cases compared", tot["compared"], 3000)
